@@ -6,8 +6,8 @@
  * becomes a yield point of a deterministic scheduler: real threads, but only
  * one runs at any time, and mutex / condvar / join semantics are implemented
  * by the scheduler (the real pthread mutex / cond are never locked or waited
- * on).  pthread_mutex_init / cond_init / *_destroy / pthread_attr_* pass
- * through to the real library.  CPU pinning is not part of the protocol.
+ * on).  pthread_mutex_init / cond_init / pthread_attr_* pass through to the
+ * real library; *_destroy are checked (see below) and then passed through.  CPU pinning is not part of the protocol.
  */
 #ifndef PSV_C12_SHIM_H
 #define PSV_C12_SHIM_H
@@ -29,6 +29,8 @@ int psv_cond_signal(pthread_cond_t *);
 int psv_create(pthread_t *, const pthread_attr_t *, void *(*)(void *), void *);
 int psv_join(pthread_t, void **);
 void psv_exit(void *) __attribute__((noreturn));
+int psv_mutex_destroy(pthread_mutex_t *);
+int psv_cond_destroy(pthread_cond_t *);
 #ifdef __cplusplus
 }
 #endif
@@ -42,6 +44,10 @@ void psv_exit(void *) __attribute__((noreturn));
 #define pthread_create(t, a, f, arg) psv_create(t, a, (void *(*)(void *))(f), arg)
 #define pthread_join(t, r)           psv_join(t, r)
 #define pthread_exit(r)              psv_exit(r)
+/* teardown: not a scheduling point; the harness checks that nobody owns the mutex, the wait set is empty and every
+ * worker has exited (PsV.C12_teardown_safe), then calls the real destroy */
+#define pthread_mutex_destroy(m)     psv_mutex_destroy(m)
+#define pthread_cond_destroy(c)      psv_cond_destroy(c)
 #define sched_setaffinity(p, s, m)   0 /* avoids stdout noise; not in the protocol */
 
 #endif /* PSV_C12_SHIM_H */
